@@ -18,6 +18,9 @@ from . import mutants as M
 def apply_edit(sources, edit):
     """edit: dict(path, old, new[, count]) textual, old must occur exactly
     `count` (default 1) times; returns new sources or None if inapplicable."""
+    if edit.get('transform') == 'ast-roundtrip':
+        # whole-tree reformat: comments dropped, layout normalised
+        return {p: ast.unparse(ast.parse(t)) for p, t in sources.items()}
     src = dict(sources)
     edits = edit['edits'] if 'edits' in edit else [edit]
     for e in edits:
@@ -63,6 +66,8 @@ def run_one(args):
 def run_suite(pid, sources, templates, jobs=16):
     todo = [m for m in M.MUTANTS if m['pid'] == pid]
     eq = [m for m in M.EQUIVALENTS if pid in m.get('pids', [pid])]
+    eq.append({'name': 'ast-roundtrip-of-every-module',
+               'transform': 'ast-roundtrip', 'pids': [pid]})
     work = [(sources, templates, pid, e) for e in todo + eq]
     if not work:
         return [], []
